@@ -46,6 +46,14 @@ func intAddDirty(zOld *big.Int, zAnn, xAnn, yAnn, cap int) bool {
 	return limbNonzero(zOld, lx, min(size, lz)) || limbNonzero(zOld, size+ly, min(2*size, lz))
 }
 
+// setBigDirty is the second face of finding C17-stale-reduced-after-even-modulus-write: for even
+// moduli ModInv/ModExp/ModExpI store the result with saferith's SetBig(result, BitLen(m)), which
+// neither clears the Nat's reduction marker nor the limbs between the result's own limb count and
+// the output's previous limb count. old/oldAnn describe the output before the call.
+func setBigDirty(old *big.Int, oldAnn int, result *big.Int, size int) bool {
+	return limbNonzero(mod2k(old, size), limbsOf(result.BitLen()), min(limbsOf(size), limbsOf(oldAnn)))
+}
+
 // divVarTimePanics is the input class of finding C17-divvartime-panics: the documented quotient
 // length num.AnnouncedLen() - den.TrueLen() + 2 is negative. Then saferith.Div produces a Nat of
 // negative announced length; at <= -64 it panics, above that the follow-up multiplication
@@ -474,6 +482,9 @@ func genOddPrime(t *rapid.T, label string, maxSmallBits int, fixtureBits []int, 
 	case c <= 1 && kind == "ord":
 		return big.NewInt(rapid.SampledFrom(smallPrimeList).Draw(t, label+".tiny")), "tiny/" + kind
 	case c <= 6:
+		if kind == "safe" && maxSmallBits > 40 {
+			maxSmallBits = 40 // next-safe-prime searches are quadratic in the length
+		}
 		bits := rapid.IntRange(3, maxSmallBits).Draw(t, label+".pbits")
 		switch rapid.IntRange(0, 5).Draw(t, label+".pb") {
 		case 0:
